@@ -1,4 +1,6 @@
 import ArimModel.Tfm
+import ArimProofs.Tie.C02
+import ArimProofs.Tie.C01
 import ArimProofs.Lemmas.Tfm
 import Mathlib.Data.Rat.Floor
 import Mathlib.Tactic.NormNum
@@ -25,6 +27,55 @@ theorem view_is_das (ops : Ops α) (d : Data α β) (pairs : List Pair) (G : Nat
     tfmForView ops d pairs G n timesTx timesRx t0 dt it fill pt =
       dasMean d fill pairs.length (fun k =>
         termNoAmp ops d (frameProblem pairs G n (fun p e => timesTx e p) (fun p e => timesRx e p) t0 dt) it pt k) := rfl
+
+/-! ## The pipelines on the kernels as translated from the source on this run
+
+`contact_tfm` and `tfm_for_view` hand the weighted timetraces and the lookup tables to the delay-and-sum kernels; with
+the kernels translated from `/repo/src/arim/im/das.py` on this run (`Tie/C02.lean`) and the straight-ray table built from
+the translated `_distance_pairwise` (`Tie/C01.lean`), the image value at a point is the model's `contactTfm` /
+`tfmForView`, the constants the identities below are about. -/
+section OnSource
+open Arim.Tie.C02
+variable [Neg α]
+
+/-- contact TFM, nearest interpolation: translated kernel on the default-weighted timetraces and one lookup table -/
+theorem src_contact_tfm_nearest (ops : Ops α) (d : Data α β) (pairs : List Pair) (G : Nat → Nat → Nat → β)
+    (n : Nat) (lookup : Nat → Nat → α) (t0 dt : α) (fill : β) (pt : Nat) :
+    Src.das_noamp_nearest (srcOps ops) d
+        (weigh d (some (defaultWeightsS ops pairs)) (fun k => G (pairs.getD k (0, 0)).1 (pairs.getD k (0, 0)).2))
+        (fun k => (pairs.getD k (0, 0)).1) (fun k => (pairs.getD k (0, 0)).2) lookup lookup
+        (ops.ofInt 1 / dt) t0 fill pairs.length n pt
+      = contactTfm ops d pairs G n lookup t0 dt .nearest fill pt := by
+  rw [tie_noamp_nearest]; rfl
+
+/-- contact TFM, linear interpolation -/
+theorem src_contact_tfm_linear (ops : Ops α) (d : Data α β) (pairs : List Pair) (G : Nat → Nat → Nat → β)
+    (n : Nat) (lookup : Nat → Nat → α) (t0 dt : α) (fill : β) (pt : Nat) :
+    Src.das_noamp_linear (srcOps ops) d
+        (weigh d (some (defaultWeightsS ops pairs)) (fun k => G (pairs.getD k (0, 0)).1 (pairs.getD k (0, 0)).2))
+        (fun k => (pairs.getD k (0, 0)).1) (fun k => (pairs.getD k (0, 0)).2) lookup lookup
+        (ops.ofInt 1 / dt) t0 fill pairs.length n pt
+      = contactTfm ops d pairs G n lookup t0 dt .linear fill pt := by
+  rw [tie_noamp_linear]; rfl
+
+/-- a view, nearest interpolation: translated kernel on the unweighted timetraces and the transposed ray times -/
+theorem src_tfm_for_view_nearest (ops : Ops α) (d : Data α β) (pairs : List Pair) (G : Nat → Nat → Nat → β)
+    (n : Nat) (timesTx timesRx : Nat → Nat → α) (t0 dt : α) (fill : β) (pt : Nat) :
+    Src.das_noamp_nearest (srcOps ops) d (fun k => G (pairs.getD k (0, 0)).1 (pairs.getD k (0, 0)).2)
+        (fun k => (pairs.getD k (0, 0)).1) (fun k => (pairs.getD k (0, 0)).2)
+        (fun p e => timesTx e p) (fun p e => timesRx e p) (ops.ofInt 1 / dt) t0 fill pairs.length n pt
+      = tfmForView ops d pairs G n timesTx timesRx t0 dt .nearest fill pt := by
+  rw [tie_noamp_nearest]; rfl
+
+/-- the straight-ray lookup table of `contact_tfm`: translated distance kernel divided by the velocity -/
+theorem src_contact_lookup {γ : Type} [Add γ] [Sub γ] [Mul γ] [Div γ] [Neg γ] (o : Src.Ops γ)
+    (grid probe : Array (P3 γ)) (v : γ) (dflt : P3 γ) (p e : Nat) :
+    Src.distance_pairwise_cell o (fun i => (grid.getD i dflt).x) (fun i => (grid.getD i dflt).y) (fun i => (grid.getD i dflt).z)
+        (fun j => (probe.getD j dflt).x) (fun j => (probe.getD j dflt).y) (fun j => (probe.getD j dflt).z) p e / v
+      = contactLookup o.sqrt grid probe v dflt p e := by
+  rw [Arim.Tie.C01.tie_distance_pairwise]; rfl
+
+end OnSource
 
 /-! ## Images over an ordered field
 
